@@ -371,10 +371,32 @@ func c09(c *Ctx) {
 			}
 		}
 		os.MkdirAll(d, 0o755)
+		// the magefile may exist as a symbolic link whose target does not: it exists, so -init creates nothing — neither
+		// here nor where the link points
+		dangling := ""
+		if i == 0 || r.Chance(1, 4) {
+			if fm["magefile.go"] == "" {
+				names = append([]string{"magefile.go"}, names...)
+			}
+			delete(fm, "magefile.go")
+			dangling = filepath.Join(root, fmt.Sprintf("init%d-outside.go", i))
+		}
 		writeFiles(d, fm)
+		if dangling != "" {
+			os.Symlink(dangling, filepath.Join(d, "magefile.go"))
+		}
 		rr := runCmd(d, env, mageBin, "-init")
 		var changed []string
 		for _, n := range names {
+			if dangling != "" && n == "magefile.go" {
+				tgt, lerr := os.Readlink(filepath.Join(d, n))
+				_, serr := os.Lstat(dangling)
+				if lerr != nil || tgt != dangling || serr == nil {
+					changed = append(changed, n)
+				}
+				os.Remove(dangling)
+				continue
+			}
 			b, err := os.ReadFile(filepath.Join(d, n))
 			if err != nil || string(b) != "old:"+n {
 				changed = append(changed, n)
@@ -387,7 +409,7 @@ func c09(c *Ctx) {
 		if names == nil {
 			names = []string{}
 		}
-		c.Emit(J{"op": "c09.init", "files": names}, J{"status": rr.status, "changed": changed, "created": len(ents) > len(names)}, "class=init", fmt.Sprintf("exists=%v", fm["magefile.go"] != ""))
+		c.Emit(J{"op": "c09.init", "files": names}, J{"status": rr.status, "changed": changed, "created": len(ents) > len(names)}, "class=init", fmt.Sprintf("exists=%v", fm["magefile.go"] != "" || dangling != ""), fmt.Sprintf("dangling=%v", dangling != ""))
 		os.RemoveAll(d)
 	}
 
